@@ -975,6 +975,339 @@ func genNest(t *rapid.T) ctx {
 	return x
 }
 
+// ---- E8 / R2: the failing tag laid out token by token ---------------------------------------------------
+//
+// Added after seeded change C15-9 (word tokens stamped with the line counter after the word was read: a word that is
+// the last thing on its line got the next line's number). The older layouts do put line ends directly after words,
+// but a multi-line tag is judged only by "N within the tag's span", which such a slip satisfies. Here the tag is a
+// token list; a LINE STRUCTURE says how many line ends stand at each join between two tokens, and one structure is
+// written in five BLANK STYLES that differ only in blanks next to the line ends (and LF / CR LF). Every token stands
+// on the same line in all five, the tag begins on the same line: whatever reading of "the line of the tag containing
+// the failing statement" is taken for a multi-line tag (DESIGN §8: not fixed), N cannot depend on the style.
+
+// laidKind: spec is the failing tag with its joins marked: '·' = a join where nothing is needed between the two
+// tokens (they cannot fuse), '_' = a join that needs at least a blank or a line end. Joins where white space could
+// change the meaning (name and '(' of a call, name and '[' of an index, '.' of a selector) are not marked: those
+// tokens stay glued.
+type laidKind struct {
+	name, spec, tail string
+	runtime          bool // raised while rendering
+	whole            bool // the tag holds ONE statement without a body: it begins where the tag begins
+	unk              bool // an unknown identifier (not combined with call sites that forgive one)
+	toEOF            bool
+}
+
+var laidKinds = []laidKind{
+	// run-time faults, the statement is the whole tag
+	{name: "unknown identifier", spec: `<%=·nope·%>`, runtime: true, whole: true, unk: true},
+	{name: "unknown identifier, silent tag", spec: `<%·nope·%>`, runtime: true, whole: true, unk: true},
+	{name: "unknown identifier in let", spec: `<%·let_q·=·nope·%>`, runtime: true, whole: true, unk: true},
+	{name: "assignment to undeclared", spec: `<%·undeclared·=·1·%>`, runtime: true, whole: true, unk: true},
+	{name: "unknown identifier in return", spec: `<%·return_nope·%>`, runtime: true, whole: true, unk: true},
+	{name: "unknown function", spec: `<%=·nope(·1·)·%>`, runtime: true, whole: true, unk: true},
+	{name: "unknown identifier in an array literal", spec: `<%=·[·1·,·nope·]·%>`, runtime: true, whole: true, unk: true},
+	{name: "unknown identifier in a hash literal", spec: `<%·let_h·=·{·"a"·:·nope·}·%>`, runtime: true, whole: true, unk: true},
+	{name: "unknown identifier right of +", spec: `<%=·1·+·nope·%>`, runtime: true, whole: true, unk: true},
+	{name: "failing helper", spec: `<%=·boom()·%>`, runtime: true, whole: true},
+	{name: "failing helper, silent tag", spec: `<%·boom()·%>`, runtime: true, whole: true},
+	{name: "failing helper as operand", spec: `<%=·"a"·+·boom()·%>`, runtime: true, whole: true},
+	{name: "failing helper right of &&", spec: `<%=·true·&&·boom()·%>`, runtime: true, whole: true},
+	{name: "failing helper in let", spec: `<%·let_q·=·boom()·%>`, runtime: true, whole: true},
+	{name: "failing method", spec: `<%=·obj.Fail()·%>`, runtime: true, whole: true},
+	{name: "type error int + string", spec: `<%=·1·+·"a"·%>`, runtime: true, whole: true},
+	{name: "type error nil + int", spec: `<%=·nil·+·1·%>`, runtime: true, whole: true},
+	{name: "type error minus string", spec: `<%=_-·"a"·%>`, runtime: true, whole: true},
+	{name: "wrong argument type", spec: `<%=·takesInt(·"s"·)·%>`, runtime: true, whole: true},
+	{name: "call of a non-function", spec: `<%=·xs()·%>`, runtime: true, whole: true},
+	{name: "invalid regular expression", spec: `<%=·"a"·~=·"("·%>`, runtime: true, whole: true},
+	{name: "division by zero", spec: `<%=·1·/·0·%>`, runtime: true, whole: true},
+	{name: "division by zero in let", spec: `<%·let_q·=·7·/·0·%>`, runtime: true, whole: true},
+	{name: "index out of range", spec: `<%=·xs[·9·]·%>`, runtime: true, whole: true},
+	{name: "index out of range on literal", spec: `<%=·[·1·,·2·][·5·]·%>`, runtime: true, whole: true},
+	// run-time faults in a body written inside the same tag, or in a later statement of the tag
+	{name: "second statement of a tag", spec: `<%·let_a9·=·1_nope·%>`, runtime: true, unk: true},
+	{name: "third statement of a tag", spec: `<%·let_a9·=·1_let_b9·=·"s"_boom()·%>`, runtime: true},
+	{name: "if body in one tag", spec: `<%·if·(·true·)·{·nope·}·%>`, runtime: true, unk: true},
+	{name: "if body in one tag, return", spec: `<%=·if·(·true·)·{·return_boom()·}·%>`, runtime: true},
+	{name: "else body in one tag", spec: `<%·if·(·false·)·{·1·}·else·{·nope·}·%>`, runtime: true, unk: true},
+	{name: "else-if body in one tag", spec: `<%·if·(·false·)·{·1·}·else_if·(·true·)·{·1·/·0·}·%>`, runtime: true},
+	{name: "for body in one tag", spec: `<%·for·(·x·)·in_xs·{·nope·}·%>`, runtime: true, unk: true},
+	{name: "for body in one tag, second statement", spec: `<%·for·(·i·,·x·)·in_xs·{·let_y·=·x_boom()·}·%>`, runtime: true},
+	{name: "function body in one tag, called later", spec: `<%·let_g9·=·fn·(·)·{·nope·}·%>`, tail: "\nx\n<%= g9() %>", runtime: true, unk: true},
+	{name: "function body in one tag, return", spec: `<%·let_g9·=·fn·(·)·{·return_nope·}·%>`, tail: "\nx\n<%= g9() %>", runtime: true, unk: true},
+	{name: "function body in one tag, parameters", spec: `<%·let_g9·=·fn·(·a·,·b·)·{·let_c·=·a_return_c·+·boom()·}·%>`, tail: "<%= g9(1, 2) %>", runtime: true},
+	{name: "function literal called at once", spec: `<%=·fn·(·)·{·return_boom()·}()·%>`, runtime: true},
+	{name: "dangling operator", spec: `<%=·1·+·%>`, runtime: true},
+	{name: "minus without operand", spec: `<%=_-·%>`, runtime: true},
+	{name: "unknown identifier, unterminated tag", spec: `<%=·nope`, runtime: true, unk: true, toEOF: true},
+	{name: "unknown identifier in let, unterminated tag", spec: `<%·let_q·=·nope`, runtime: true, unk: true, toEOF: true},
+	// syntax faults
+	{name: "unbalanced (", spec: `<%=·(·1·%>`},
+	{name: "unbalanced [", spec: `<%=·[·1·%>`},
+	{name: "unbalanced {", spec: `<%=·{·"a"·:·1·%>`},
+	{name: "unbalanced index", spec: `<%=·xs[·1·%>`},
+	{name: "missing comma after a word", spec: `<%=·[·1·,·b_2·]·%>`},
+	{name: "missing comma after a number", spec: `<%=·[·1_2·]·%>`},
+	{name: "missing comma after a string", spec: `<%=·[·"a"·"b"·]·%>`},
+	{name: "let without a name", spec: `<%·let_=·1·%>`},
+	{name: "let without =", spec: `<%·let_q_1·%>`},
+	{name: "operator without left operand", spec: `<%=·1·+·*·2·%>`},
+	{name: "if condition without )", spec: `<%·if·(·true·{·nope·}·%>`},
+	{name: "if without condition", spec: `<%·if·{·1·}·%>`},
+	{name: "for without in", spec: `<%·for·(·x·)·xs·{·1·}·%>`},
+	{name: "hash literal without colon", spec: `<%·let_h·=·{·"a"_1·}·%>`},
+	{name: "over-long number literal", spec: `<%=·99999999999999999999·%>`},
+	{name: "over-long number literal as operand", spec: `<%=·1·+·99999999999999999999·%>`},
+	{name: "keyword where an expression is expected", spec: `<%=·1·+·let_q·%>`},
+}
+
+func (k laidKind) split() (toks []string, need []bool) {
+	cur := ""
+	for _, ch := range k.spec {
+		if ch == '·' || ch == '_' {
+			toks, need, cur = append(toks, cur), append(need, ch == '_'), ""
+			continue
+		}
+		cur += string(ch)
+	}
+	return append(toks, cur), need
+}
+
+// LaidCase: one failing tag, one line structure, judged in all blank styles.
+type LaidCase struct {
+	Kind    string   `json:"kind"`
+	Ctx     string   `json:"ctx"`
+	Pre     vk.Text  `json:"pre"`
+	Toks    []string `json:"toks"` // tokens of the failing tag, opener first, closer last (none if ToEOF)
+	Need    []bool   `json:"need"` // Need[i]: tokens i and i+1 would fuse without white space
+	NL      []int    `json:"nl"`   // NL[i]: line ends between tokens i and i+1
+	Post    vk.Text  `json:"post"`
+	ToEOF   bool     `json:"to_eof,omitempty"`
+	Runtime bool     `json:"runtime,omitempty"`
+	Whole   bool     `json:"whole,omitempty"`
+	Shifts  []int    `json:"shifts"`
+}
+
+const nStyles = 5
+
+var styleNames = [nStyles]string{"line ends bare (LF)", "a blank before each line end", "a blank after each line end", "line ends bare (CR LF)", "tabs around each line end, two blanks elsewhere"}
+
+func (c LaidCase) tag(style int) string {
+	var sb strings.Builder
+	for i, t := range c.Toks {
+		sb.WriteString(t)
+		if i == len(c.Toks)-1 {
+			break
+		}
+		n, tight := c.NL[i], map[bool]string{true: " ", false: ""}[c.Need[i]]
+		switch {
+		case n == 0 && (style == 1):
+			sb.WriteString(" ")
+		case n == 0 && style == 4:
+			sb.WriteString("  ")
+		case n == 0:
+			sb.WriteString(tight)
+		case style == 0:
+			sb.WriteString(strings.Repeat("\n", n))
+		case style == 1:
+			sb.WriteString(" " + strings.Repeat("\n", n))
+		case style == 2:
+			sb.WriteString(strings.Repeat("\n", n) + " ")
+		case style == 3:
+			sb.WriteString(strings.Repeat("\r\n", n))
+		default:
+			sb.WriteString("\t" + strings.Repeat("\n\t", n))
+		}
+	}
+	return sb.String()
+}
+
+func (c LaidCase) src(style int) string { return string(c.Pre) + c.tag(style) + string(c.Post) }
+
+func ns(ms []msgLine) []int {
+	out := make([]int, len(ms))
+	for i, m := range ms {
+		out[i] = m.n
+	}
+	return out
+}
+
+func checkLaid(r *vk.Run, c LaidCase) *vk.Fail {
+	defer r.Watch("laid", c)()
+	if len(c.Toks) < 2 || len(c.Need) != len(c.Toks)-1 || len(c.NL) != len(c.Toks)-1 {
+		return &vk.Fail{Kind: "decode", Msg: "token / join lists do not match"}
+	}
+	total := 0
+	for _, n := range c.NL {
+		if n < 0 || n > 8 {
+			return &vk.Fail{Kind: "decode", Msg: "line ends out of range"}
+		}
+		total += n
+	}
+	first := 1 + strings.Count(string(c.Pre), "\n")
+	last := first + total
+	if c.ToEOF {
+		last = 1 + strings.Count(c.src(0), "\n")
+	}
+	fail := func(f string, a ...interface{}) *vk.Fail {
+		return &vk.Fail{Kind: "laid", Class: "laid/" + c.Kind, Case: c, Msg: fmt.Sprintf("template %q (failing tag %q on line %d..%d): ", c.src(0), c.tag(0), first, last) + fmt.Sprintf(f, a...)}
+	}
+	nt := ""
+	if first > 1 && total > 0 {
+		nt = "laid\x00" + c.src(0) + "\x00" + fmt.Sprint(c.Shifts)
+	}
+	r.Count(nt, "laid/"+c.Kind)
+	r.Class("laid-ctx/" + c.Ctx)
+	// the statement lies on the tag's first line: nothing but the closer stands on a later line
+	oneLineStatement := c.Runtime && c.Whole && !c.ToEOF
+	for i, n := range c.NL {
+		if n > 0 && i != len(c.NL)-1 {
+			oneLineStatement = false
+		}
+	}
+	for _, api := range apis {
+		res := vk.Safe(func() (string, error) { return api.run(c.src(0)) })
+		if res.Panicked() {
+			r.Exclude("panic (subject of C03/C04)")
+			return nil
+		}
+		if res.Err == nil {
+			if api.name == "Parse" {
+				continue
+			}
+			r.Exclude("no error returned (subject of C05)")
+			return nil
+		}
+		text := res.Err.Error()
+		if api.name == "Render" {
+			r.Sample(func() interface{} {
+				return map[string]interface{}{"template": c.src(0), "failing_tag": c.tag(0), "kind": c.Kind, "context": c.Ctx,
+					"tag_lines": []int{first, last}, "error": text, "phase": "laid"}
+			})
+		}
+		msgs, bad, ok := splitErr(text)
+		if !ok {
+			return fail("%s error %q: its first line %q does not start with \"line N: \"", api.name, text, bad)
+		}
+		if m := unknownName.FindStringSubmatch(msgs[0].rest); m != nil && !c.ToEOF && !strings.Contains(c.tag(0), m[1]) && strings.Contains(string(c.Pre)+string(c.Post), m[1]) {
+			r.Exclude("an unknown identifier elsewhere in the template was not forgiven")
+			return nil
+		}
+		n0 := msgs[0].n
+		switch {
+		case first == last && n0 != first:
+			return fail("%s error %q names line %d, the failing tag lies on line %d", api.name, text, n0, first)
+		case n0 < first || n0 > last:
+			return fail("%s error %q names line %d, the failing tag spans lines %d..%d", api.name, text, n0, first, last)
+		case oneLineStatement && n0 != first:
+			return fail("%s error %q names line %d; the tag begins on line %d and its one statement lies on that line entirely (only the closer stands on a later line)", api.name, text, n0, first)
+		}
+		// the same tokens on the same lines, blanks added next to the line ends
+		for s := 1; s < nStyles; s++ {
+			src := c.src(s)
+			res2 := vk.Safe(func() (string, error) { return api.run(src) })
+			if res2.Panicked() || res2.Err == nil {
+				r.Exclude("a blank style of the failing tag returns no error (layout: subject of C18)")
+				continue
+			}
+			msgs2, bad, ok := splitErr(res2.Err.Error())
+			if !ok {
+				return fail("%s, written with %s (%q): error %q: its first line %q does not start with \"line N: \"", api.name, styleNames[s], c.tag(s), res2.Err.Error(), bad)
+			}
+			if msgs2[0].n != n0 || (len(msgs2) == len(msgs) && fmt.Sprint(ns(msgs2)) != fmt.Sprint(ns(msgs))) {
+				return fail("%s error %q names line(s) %v; written with %s (%q) - every token on the same line as before - the error %q names line(s) %v",
+					api.name, text, ns(msgs), styleNames[s], c.tag(s), res2.Err.Error(), ns(msgs2))
+			}
+		}
+		// shifting
+		for _, k := range c.Shifts {
+			res2 := vk.Safe(func() (string, error) { return api.run(strings.Repeat("\n", k) + c.src(0)) })
+			if res2.Panicked() || res2.Err == nil {
+				return fail("%s after prepending %d empty line(s) the result is %s, without them error %q", api.name, k, res2, text)
+			}
+			var want []string
+			for _, m := range msgs {
+				want = append(want, fmt.Sprintf("line %d: %s", m.n+k, m.rest))
+			}
+			if w, text2 := strings.Join(want, "\n"), res2.Err.Error(); text2 != w && innerLine.ReplaceAllString(text2, "${1}line #") != innerLine.ReplaceAllString(w, "${1}line #") {
+				return fail("%s after prepending %d empty line(s) the error is %q, want %q (unshifted: %q)", api.name, k, text2, w, text)
+			}
+		}
+	}
+	return nil
+}
+
+// laidStructures: the line structures swept for a tag of j joins: one line end (and one empty line) at each join,
+// line ends at every pair of joins (thorough: every triple), at all joins.
+func laidStructures(j int, triples bool) [][]int {
+	var out [][]int
+	mk := func(at ...int) []int {
+		v := make([]int, j)
+		for _, i := range at {
+			v[i]++
+		}
+		return v
+	}
+	all := make([]int, j)
+	for a := 0; a < j; a++ {
+		all[a] = 1
+		out = append(out, mk(a), mk(a, a))
+		for b := a + 1; b < j; b++ {
+			out = append(out, mk(a, b))
+			for d := b + 1; triples && d < j; d++ {
+				out = append(out, mk(a, b, d))
+			}
+		}
+	}
+	return append(out, all)
+}
+
+var invalidLaid = map[string]bool{}
+
+// validateLaid: the premise of a laid kind is that its tag, written on one line, fails where nothing else can.
+func validateLaid() {
+	for _, k := range laidKinds {
+		toks, _ := k.split()
+		src := strings.Join(toks, " ") + k.tail
+		res := vk.Safe(func() (string, error) { return plush.Render(src, plush.NewContextWith(data())) })
+		if !res.Panicked() && res.Err == nil {
+			invalidLaid[k.name] = true
+		}
+	}
+}
+
+// buildLaid: ok=false for combinations that are no fault by construction.
+func buildLaid(k laidKind, x ctx, prefix string, nl []int, shifts []int) (c LaidCase, ok bool) {
+	if (k.unk && x.forgives) || (k.toEOF && (x.fn || !x.top)) {
+		return c, false
+	}
+	toks, need := k.split()
+	post := k.tail + "\n" + x.post + "\n"
+	if k.toEOF {
+		post = ""
+	}
+	return LaidCase{Kind: k.name, Ctx: x.name, Pre: vk.Text(prefix + x.pre), Toks: toks, Need: need, NL: nl, Post: vk.Text(post),
+		ToEOF: k.toEOF, Runtime: k.runtime, Whole: k.whole, Shifts: shifts}, true
+}
+
+func runLaid(r *vk.Run, k laidKind, x ctx, prefix string, nl []int, shifts []int) *vk.Fail {
+	c, ok := buildLaid(k, x, prefix, nl, shifts)
+	if !ok {
+		return nil
+	}
+	if invalidLaid[k.name] || invalidCtx[x.name] {
+		r.Exclude("table entry does not hold on this tree: " + map[bool]string{true: "context " + x.name, false: "laid kind " + k.name}[invalidCtx[x.name]])
+		return nil
+	}
+	for _, t := range invalidPrefix {
+		if strings.HasPrefix(prefix, t) {
+			r.Exclude("table entry does not hold on this tree: a prefix")
+			return nil
+		}
+	}
+	return checkLaid(r, c)
+}
+
 // ---- the check ---------------------------------------------------------------------------------------
 
 var rule = "Templates = prefix + [setup] + context opener + ONE failing tag + tail + gap + context closer + suffix. " +
@@ -998,6 +1331,11 @@ var rule = "Templates = prefix + [setup] + context opener + ONE failing tag + ta
 	"(2) N of the first message = line of the failing tag if it lies on one line, else within [first,last] line of the tag (to the end of input for an unterminated tag); " +
 	"(3) after prepending k in 1..50 (E7: also 127..65536) lines of literal text (empty or not) the error is byte-identical except that every leading N became N+k (line numbers a message mentions in its own words, not at the start of a line, may move or stay). Parse and Render are both judged. " +
 	"E5 and a quarter of the random run-time cases repeat this with plush.CacheEnabled on, in both evaluation orders (unshifted first / shifted first), and execute one parsed template twice. " +
+	fmt.Sprintf("E8 / R2 (added after seeded change C15-9): %d failing tags given as token lists", len(laidKinds)) + " (the families above; words, keywords, numbers, strings, operators and brackets as tokens; if / else / else-if / for / function bodies and " +
+	"several statements written inside one tag) x 13 contexts x line structures (how many line ends stand at each join between two tokens: one, two at each join, one at each pair - thorough, tags of up to 9 joins: triple - of joins, one at every join; random: 0..3 at each join), " +
+	"each structure written in 5 blank styles (bare LF with no blank at all where tokens cannot fuse, blank before each line end, blank after, bare CR LF, tabs around). Oracle: (1)-(3) as above for the bare style, and " +
+	"(4) N - and the N of every follow-on message - is the same in all five styles, because every token stands on the same line in all of them and the tag begins on the same line; (5) for a run-time fault of a tag that is one statement " +
+	"lying entirely on the tag's first line (only the closer on a later line) N = that line. Non-trivial there: the tag spans lines and does not start on line 1. " +
 	"Non-trivial: the failing tag does not start on line 1 (there is something to count); distinct by template text + shifts + cache mode."
 
 func setup(t *testing.T) *vk.Run {
@@ -1021,6 +1359,18 @@ func setup(t *testing.T) *vk.Run {
 			}
 		}
 		return check(r, c)
+	})
+	r.Replayer("laid", func(raw json.RawMessage) *vk.Fail {
+		var c LaidCase
+		if f := vk.Decode(raw, &c); f != nil {
+			return f
+		}
+		for _, k := range c.Shifts {
+			if k < 0 || k > 100000 {
+				return &vk.Fail{Kind: "decode", Msg: "shift out of range"}
+			}
+		}
+		return checkLaid(r, c)
 	})
 	return r
 }
@@ -1233,6 +1583,76 @@ func TestProp(t *testing.T) {
 		r.Finish()
 		os.Exit(2)
 	}
+
+	// E8: the failing tag laid out token by token (see laidKinds): every kind x 13 contexts x line structures, each
+	// judged in 5 blank styles; the prefix rotates in the quick tier and is multiplied out in the thorough tier.
+	phase("E8")
+	validateLaid()
+	var e8x []ctx
+	for _, n := range []string{"top", "top, mid-line", "if", "else", "for", "function", "block helper", "if in for, same line", "function, called in let",
+		"function, called from a function", "loop, third iteration", "contentFor body, rendered by a later contentOf", "top, directly after a tag that spans lines"} {
+		found := false
+		for _, x := range ctxs {
+			if x.name == n {
+				e8x, found = append(e8x, x), true
+			}
+		}
+		if !found {
+			panic("no context named " + n)
+		}
+	}
+	e8p := pick("one text line", "empty", "multi-line back-quoted string", "tags whose code starts on the next line", "CRLF text and tag")
+	type e8cell struct {
+		k, x, p int
+		nl      []int
+	}
+	var e8 []e8cell
+	e8structs := 0
+	for ki, k := range laidKinds {
+		toks, _ := k.split()
+		st := laidStructures(len(toks)-1, !r.Quick() && len(toks)-1 <= 9)
+		e8structs += len(st)
+		for xi := range e8x {
+			for si, nl := range st {
+				if r.Quick() {
+					e8 = append(e8, e8cell{ki, xi, (ki + xi + si) % len(e8p), nl})
+					continue
+				}
+				for pi := range e8p {
+					e8 = append(e8, e8cell{ki, xi, pi, nl})
+				}
+			}
+		}
+	}
+	r.Subspace(fmt.Sprintf("E8 laid-out tags: %d kinds x %d contexts x %d line structures in all (a line end, an empty line at each join between two tokens; line ends at each pair%s of joins; at all joins) x %s, 5 blank styles and 2 shifts each",
+		len(laidKinds), len(e8x), e8structs, map[bool]string{true: "", false: " and - tags of up to 9 joins - triple"}[r.Quick()], map[bool]string{true: "a rotating prefix out of 5", false: "5 prefixes"}[r.Quick()]), int64(len(e8)), true)
+	r.Parallel(int64(len(e8)), 0, func(i int64) {
+		cl := e8[i]
+		r.Check(runLaid(r, laidKinds[cl.k], e8x[cl.x], prefixes[e8p[cl.p]].text, cl.nl, []int{1, 3 + int(i%47)}))
+	})
+
+	// R2: random line structures (0..3 line ends at each join) behind random prefixes
+	phase("R2")
+	r.Rapid("random laid-out tags", r.Pick(1500, 8000), func(t *rapid.T) *vk.Fail {
+		prefix, _ := genPrefix(t)
+		k := laidKinds[rapid.IntRange(0, len(laidKinds)-1).Draw(t, "kind")]
+		x := e8x[rapid.IntRange(0, len(e8x)-1).Draw(t, "ctx")]
+		toks, _ := k.split()
+		nl := make([]int, len(toks)-1)
+		for i := range nl {
+			nl[i] = rapid.SampledFrom([]int{0, 0, 0, 1, 1, 2, 3}).Draw(t, "line ends")
+		}
+		if _, ok := buildLaid(k, x, prefix, nl, nil); !ok {
+			r.Exclude("not a fault by construction")
+			return nil
+		}
+		res := vk.Safe(func() (string, error) { return plush.Render(prefix+x.pre+x.ok()+x.post, plush.NewContextWith(data())) })
+		if res.Panicked() || res.Err != nil {
+			r.Exclude("random prefix or context does not render with a harmless tag (not C15's subject)")
+			return nil
+		}
+		return runLaid(r, k, x, prefix, nl, []int{rapid.IntRange(1, 50).Draw(t, "k")})
+	})
 
 	phase("R")
 	defer phase("end")
